@@ -18,6 +18,7 @@ Floats are never compared as text or with ==, only as bit patterns.
 import ctypes
 import os
 import struct
+import sys
 
 import common
 from common import InfraError
@@ -33,7 +34,8 @@ MANIFEST = {
     "note": "Partial: that the hardware computes Ieee.narrow/Ieee.widen is validated by running (gcc cast helper, "
             "struct.pack), not derived; x87 long double is an opaque 16-byte object whose 6 padding bytes are excluded; "
             "PyFloat_AsDouble / PyComplex_AsCComplex (int->double, __float__ dispatch) are CPython's and trusted.",
-    "technique": "Lean 4 proof (case analysis on exponent ranges over Nat bit fields, omega) + three-way differential "
+    "technique": "Lean 4 proof (case analysis on exponent ranges over Nat bit fields, omega; store-path theorems over the "
+                 "size dispatch and flag tests re-extracted from the C source on every run) + three-way differential "
                  "correspondence cffi / Lean spec / gcc-compiled cast and struct.pack",
 }
 
@@ -71,6 +73,12 @@ def _setup(ctx):
     lib.c05_widen.restype = ctypes.c_uint64
     if lib.c05_sizeof_long_double() != 16 or ffi.sizeof("long double") != 16:
         raise InfraError("long double is not the 16-byte x87 type this check models")
+    sys.path.insert(0, os.path.join(common.VERIF, "translate"))
+    import c05_exprs
+    abi = {"float": lib.c05_sizeof_float(), "double": lib.c05_sizeof_double(), "long double": lib.c05_sizeof_long_double()}
+    if abi != c05_exprs.SIZEOF:
+        raise InfraError("sizeof of the floating types %r differs from the ABI parameters of the translator %r"
+                         % (abi, c05_exprs.SIZEOF))
     _state.update(ffi=ffi, lib=lib,
                   off_f=ffi.offsetof("struct c05_s", "f"), off_d=ffi.offsetof("struct c05_s", "d"),
                   off_ld=ffi.offsetof("struct c05_s", "ld"), off_fc=ffi.offsetof("struct c05_s", "fc"),
@@ -448,7 +456,21 @@ def ord_case(ctx, st, n, lines, expect, oracle_only=False):
     bad = [k for k in got if got[k] != want]
     if bad:
         ctx.fail(case, "1-character value %d cast via %s gives %#x, (double)%d is %#x" % (n, bad[0], got[bad[0]], n, want))
+    stored = {}
+    for T in ("float", "double"):
+        stored[T] = bytes(ffi.buffer(ffi.new(T + "*", ffi.cast(T, chr(n)))))
+        wantb = le(4, c_narrow(st, want)) if T == "float" else le(8, want)
+        if stored[T] != wantb and not bad:
+            ctx.fail(case, "1-character str %d cast to %s and stored: %s, the C conversion gives %s"
+                     % (n, T, stored[T].hex(), wantb.hex()))
+            bad = ["stored"]
     if not oracle_only:
+        for T, nb in (("float", 4), ("double", 8)):
+            lines.append("castchar %d str 1 %d" % (nb, n))
+            expect.append((case, "ok " + stored[T].hex(), "ffi.cast(%s, 1-char str)" % T))
+            if n < 256:
+                lines.append("castchar %d bytes 1 %d" % (nb, n))
+                expect.append((case, "ok " + stored[T].hex(), "ffi.cast(%s, 1-byte bytes)" % T))
         lines.append("ord %d" % n)
         expect.append((case, "ok %d" % got["double:str"], "ordinal to double"))
         lines.append("store 4 %d" % want)
@@ -456,9 +478,19 @@ def ord_case(ctx, st, n, lines, expect, oracle_only=False):
     return not bad
 
 
-def rejected_inputs(ctx, st):
+def rejected_inputs(ctx, st, lines=None, expect=None):
     """What the float store paths must refuse (exception types only)."""
     ffi = st["ffi"]
+    if lines is not None:
+        for T, nb in (("float", 4), ("double", 8)):
+            for kind, arg, ln in (("bytes", b"AB", 2), ("bytes", b"", 0), ("str", "AB", 2), ("str", "", 0)):
+                try:
+                    ffi.cast(T, arg)
+                    got = "ok"
+                except Exception as e:      # noqa
+                    got = "err " + type(e).__name__
+                lines.append("castchar %d %s %d 65" % (nb, kind, ln))
+                expect.append(({"kind": "rejected", "name": "cast-%s-%s-%d" % (T, kind, ln)}, got, "rejected cast"))
     table = [
         ("new-bytes", lambda: ffi.new("float *", b"A"), TypeError),
         ("new-str", lambda: ffi.new("double *", "A"), TypeError),
@@ -501,7 +533,7 @@ def run(ctx, n_scalar, n_complex, n_ld, n_ord, oracle_only=False):
     st = _setup(ctx)
     rng = ctx.rng
     lines, expect = [], []
-    rejected_inputs(ctx, st)
+    rejected_inputs(ctx, st, None if oracle_only else lines, expect)
     pats = edge_patterns() + [gen_pattern(rng) for _ in range(n_scalar)]
     for x in pats:
         scalar_case(ctx, st, x, lines, expect, oracle_only)
@@ -536,6 +568,15 @@ def run(ctx, n_scalar, n_complex, n_ld, n_ord, oracle_only=False):
     for o, (case, want, what) in zip(out, expect):
         if o != want:
             ctx.disagree(case, want, o, what)
+
+
+def translators(ctx):
+    """Generated/FloatExprs.lean: the size dispatch of read/write_raw_float_data, the halves of the complex stores, the
+    long double sizes, the CT_IS_LONGDOUBLE tests of convert_to_object / convert_from_object / do_cast and the result
+    codes of check_bytes_for_float_compatible, re-extracted from _cffi_backend.c (translate/c05_exprs.py)."""
+    sys.path.insert(0, os.path.join(common.VERIF, "translate"))
+    import c05_exprs
+    return [c05_exprs.translator]
 
 
 def correspond(ctx):
